@@ -83,13 +83,15 @@ Lemma extract_padding_ok (x : bytes) (pl : nat) :
 Proof.
   intros Hpl. unfold extract_padding.
   rewrite N.mod_small by lia.
-  rewrite rev_app_distr, rev_repeat.
-  destruct pl as [|p]; [lia|]. cbn [repeat app].
-  replace (S (N.to_nat (N.of_nat (S p) - 1))) with (S p) by lia.
-  change (N.of_nat (S p) - 1 :: repeat (N.of_nat (S p) - 1) p ++ rev x)
-    with (repeat (N.of_nat (S p) - 1) (S p) ++ rev x).
+  destruct pl as [|p]; [lia|].
+  set (v := N.of_nat (S p) - 1).
+  assert (Hlast : last (x ++ repeat v (S p)) 0 = v).
+  { change (repeat v (S p)) with (v :: repeat v p). rewrite repeat_cons, app_assoc. apply last_last. }
+  rewrite Hlast, rev_app_distr, rev_repeat, app_length, repeat_length.
+  replace (length x + S p <? 1)%nat with false by (symmetry; apply Nat.ltb_ge; lia).
+  replace (S (N.to_nat v)) with (S p) by lia.
   rewrite firstn_app_exact by (rewrite repeat_length; reflexivity).
-  rewrite forallb_repeat, app_length, repeat_length.
+  rewrite forallb_repeat.
   replace (S p <=? length x + S p)%nat with true by (symmetry; apply Nat.leb_le; lia).
   reflexivity.
 Qed.
